@@ -7,6 +7,7 @@
 import ast
 from   collections              import namedtuple
 from   functools                import total_ordering
+import unicodedata
 
 from   pyflyby._flags           import CompilerFlags
 from   pyflyby._format          import FormatParams, pyfill
@@ -142,6 +143,12 @@ class Import:
     def from_parts(cls, fullname, import_as):
         assert isinstance(fullname, str)
         assert isinstance(import_as, str)
+        if not fullname.isascii() or not import_as.isascii():
+            # Python normalizes identifiers to NFKC while parsing, so
+            # 'from a import \ufb01le' binds (and imports) 'file'.  Use the
+            # normalized spelling, as the ast-based constructors already do.
+            fullname = unicodedata.normalize('NFKC', fullname)
+            import_as = unicodedata.normalize('NFKC', import_as)
         self = object.__new__(cls)
         self.fullname = fullname
         self.import_as = import_as
